@@ -116,21 +116,28 @@ def marker_tables(draw, tree_data, ref_genes, root_required=True, density=None):
     n = len(ref_genes)
     out = {}
 
-    def pick(min_size=0):
-        k = draw(st.integers(min_size, n))
-        if dens < 0.3:
-            k = min(k, max(min_size, n // 4))
+    def pick(lo, hi):
+        lo = min(lo, n)
+        hi = max(lo, min(hi, n))
+        k = draw(st.integers(lo, hi))
         idx = draw(st.lists(st.integers(0, n - 1), min_size=k, max_size=k, unique=True))
         lst = [ref_genes[i] for i in idx]
         if lst and draw(st.integers(0, 5)) == 0:
             lst.append(lst[0])  # a duplicate inside a list
         return lst
-    out['None'] = pick(min_size=1 if root_required else 0)
+    big = (6, n) if dens >= 0.3 else (4, max(4, n // 2))
+    out['None'] = pick(*big) if draw(st.integers(0, 4)) else pick(1 if root_required else 0, 2)
     for p in t.all_parents()[1:]:
-        mode = draw(st.sampled_from(['list', 'list', 'list', 'missing', 'empty']))
+        mode = draw(st.sampled_from(['list', 'list', 'list', 'list', 'short', 'missing', 'empty']))
         if mode == 'missing':
             continue
-        out[f'{p[0]}/{p[1]}'] = [] if mode == 'empty' else pick()
+        key = f'{p[0]}/{p[1]}'
+        if mode == 'empty':
+            out[key] = []
+        elif mode == 'short':
+            out[key] = pick(1, 2)
+        else:
+            out[key] = pick(*big)
     return out
 
 
@@ -143,7 +150,7 @@ def query_specs(draw, ref_genes, must_include=(), max_cells=16, dtypes=DTYPES,
                 max_count=60):
     """query matrix description; values expanded from 'seed'"""
     n_cells = draw(st.integers(min_cells, max_cells))
-    keep = [g for g in ref_genes if g in must_include or draw(st.integers(0, 9)) < 8]
+    keep = [g for g in ref_genes if g in must_include or draw(st.integers(0, 9)) < 9]
     extra = [f'x{i}' for i in range(draw(st.integers(0, 3)))] if extra_genes else []
     genes = draw(st.permutations(keep + extra))
     id_scheme = draw(st.sampled_from(['c', 'c', 'num', 'uni']))
@@ -162,7 +169,7 @@ def query_specs(draw, ref_genes, must_include=(), max_cells=16, dtypes=DTYPES,
         'genes': list(genes), 'cells': list(cells),
         'seed': draw(st.integers(0, 2**31 - 1)),
         'max_count': max_count,
-        'density': draw(st.sampled_from([0.3, 0.7, 1.0])),
+        'density': draw(st.sampled_from([0.4, 0.8, 0.9, 1.0])),
         'zero_rows': zero_rows,
         'dtype': draw(st.sampled_from(list(dtypes))),
         'enc': draw(st.sampled_from(list(encs))),
@@ -170,7 +177,7 @@ def query_specs(draw, ref_genes, must_include=(), max_cells=16, dtypes=DTYPES,
 
 
 @st.composite
-def ref_specs(draw, tree_data, n_genes=None, max_genes=14, min_genes=4, family=None):
+def ref_specs(draw, tree_data, n_genes=None, max_genes=24, min_genes=8, family=None):
     t = treemodel.Tree(tree_data)
     leaves = sorted(t.leaves())
     if n_genes is None:
@@ -190,21 +197,21 @@ def ref_specs(draw, tree_data, n_genes=None, max_genes=14, min_genes=4, family=N
 
 @st.composite
 def map_configs(draw, tree_data, n_cells, factor=None, allow_flatten=True, allow_drop=True,
-                max_iter=8):
+                max_iter=12):
     h = tree_data['hierarchy']
     flatten = draw(st.integers(0, 5)) == 0 if allow_flatten else False
     drop = None
     if allow_drop and not flatten and len(h) > 1 and draw(st.integers(0, 3)) == 0:
         drop = draw(st.sampled_from(h[:-1] + ['no_such_level']))
     if factor is None:
-        factor = draw(st.sampled_from([1.0, 0.9, 0.7, 0.5, 0.33, 0.1]))
+        factor = draw(st.sampled_from([1.0, 0.9, 0.9, 0.75, 0.75, 0.5, 0.5, 0.33, 0.1]))
     return {
         'flatten': flatten,
         'drop_level': drop,
         'chunk_size': draw(st.integers(1, n_cells + 3)),
         'n_processors': draw(st.integers(1, 4)),
         'n_runners_up': draw(st.integers(0, 4)),
-        'bootstrap_iteration': draw(st.integers(1, max_iter)),
+        'bootstrap_iteration': draw(st.sampled_from([i for i in (1, 2, 3, 5, 8, 12) if i <= max(1, max_iter)])),
         'bootstrap_factor': factor,
         'min_markers': draw(st.integers(1, 6)),
         'normalization': 'raw',
@@ -218,7 +225,7 @@ def map_configs(draw, tree_data, n_cells, factor=None, allow_flatten=True, allow
 @st.composite
 def map_cases(draw, max_levels=4, max_leaves=10, factor=None, allow_flatten=True,
               allow_drop=True, min_top=1, max_cells=12, dtypes=DTYPES, allow_odd=True,
-              family=None, tree=None, max_iter=8, encs=('csr', 'csc', 'dense')):
+              family=None, tree=None, max_iter=12, encs=('csr', 'csc', 'dense')):
     tree_data = tree if tree is not None else draw(trees(max_levels=max_levels, max_leaves=max_leaves,
                                                          allow_odd=allow_odd, min_top=min_top))
     ref = draw(ref_specs(tree_data, family=family))
